@@ -38,7 +38,8 @@ RULE = ("seeded version lists (1-4 versions, newest first) rendered from record 
 
 FORMATS = ["properties", "dtd", "ini", "ftl", "inc", "android"]
 FNAME = {"properties": "browser/foo.properties", "dtd": "foo.dtd", "ini": "x/foo.ini",
-         "ftl": "foo.ftl", "inc": "defines.inc", "android": "res/values/strings.xml"}
+         "ftl": "foo.ftl", "inc": "defines.inc", "android": "res/values/strings.xml",
+         "po": "de/foo.po"}     # po: only in the C16 suites (tuple keys, see key_str)
 PARSER_CODE = {"android": 0, "dtd": 1, "properties": 2, "ini": 3, "inc": 4, "ftl": 5, "po": 6}
 
 K_ENTITY, K_COMMENT, K_WHITE, K_JUNK, K_STICKY, K_OTHER, K_PLACEHOLDER, K_SECTION = range(8)
@@ -93,6 +94,14 @@ class Ids:
         return self.m[k]
 
 
+def key_str(key):
+    """entity keys as strings: a PO key is the tuple (msgid, msgctxt); the models only
+    compare keys, any injective rendering will do"""
+    if isinstance(key, tuple):
+        return key[0] if key[1] is None else key[0] + "\x04" + key[1]
+    return key
+
+
 def centry(e, ids=None):
     """[kind, key, text, raw_val, identity] as Model/Channels.v centry_of_sx reads it"""
     k = ckind(e)
@@ -101,7 +110,7 @@ def centry(e, ids=None):
     elif k == K_WHITE:
         key = ""
     else:
-        key = e.key
+        key = key_str(e.key)
     if not isinstance(key, str):
         raise TypeError("non-str key %r" % (key,))
     val = e.raw_val if k in (K_ENTITY, K_PLACEHOLDER) and isinstance(e.raw_val, str) else ""
@@ -149,6 +158,8 @@ def render_value(fmt, rng, lang="L"):
         v = v.replace("'", "\\'").replace("&", "&amp;").replace("<", "&lt;")
     elif fmt == "inc":
         v = v.replace("\n", " ")
+    elif fmt == "po":
+        v = 'msgstr "%s"' % v        # PoEntity.raw_val is the whole msgstr clause
     return v
 
 
@@ -161,6 +172,8 @@ def key_name(fmt, i):
         return "KEY_%d" % i
     if fmt == "android":
         return "key_%d" % i
+    if fmt == "po":
+        return "key %d" % i
     return "key%d" % i
 
 
@@ -175,6 +188,8 @@ def render_comment(fmt, text):
         return "<!-- %s -->" % text
     if fmt == "inc":
         return "# " + text
+    if fmt == "po":
+        return "#. " + text
     return "%s %s" % (comment_marker(fmt, text), text)
 
 
@@ -188,6 +203,8 @@ def comment_val(fmt, text):
         return text
     if fmt == "inc":
         return text           # comment_offset = 2
+    if fmt == "po":
+        return "#. " + text + "\n"   # plain Comment: val is all, the regex takes the newline
     return " " + text         # OffsetComment, offset 1
 
 
@@ -206,6 +223,8 @@ def render_entity(fmt, key, value, style=0):
         return "%s = %s" % (key, value)
     if fmt == "android":
         return '<string name="%s">%s</string>' % (key, value)
+    if fmt == "po":
+        return 'msgid "%s"\n%s' % (key, value)
     raise ValueError(fmt)
 
 
@@ -249,7 +268,7 @@ def gen_items(fmt, rng, nkeys, lang="L", blanks=True):
     if rng.random() < 0.5:
         rng.shuffle(keys)
     items = []
-    loose = fmt != "inc" or blanks      # .inc: blank lines only under `#filter emptyLines`
+    loose = (fmt != "inc" or blanks) and fmt != "po"   # .inc: blank lines only under `#filter emptyLines`
     if fmt == "inc" and blanks:
         items.append(("pi", "filter emptyLines"))
         items.append(("blank",))
@@ -562,6 +581,7 @@ def model_versions(name, texts):
 JUNK_MARK = "JUNKJUNK"
 JUNK_LINE = {"properties": JUNK_MARK + " line\n", "dtd": "<!ENTITY " + JUNK_MARK + ">\n",
              "ini": JUNK_MARK + "\n", "inc": JUNK_MARK + "\n", "ftl": JUNK_MARK + "\n",
+             "po": JUNK_MARK + "\n",
              "android": '  <plurals name="' + JUNK_MARK + '"></plurals>\n'}
 
 
@@ -603,6 +623,85 @@ UNSUPPORTED = ["foo.txt", "strings.xm", "a.properties.bak", "foo.ftlx", "README"
                "foo.json", "dtd", "", "a.ini~"]
 SUPPORTED_ODD = ["strings-foo.xml", "a/strings.xml", "foo.pot", "foo.po", "x.dtd", "mystrings.xml",
                  "a.properties", "b.ini", "c.inc", "d.ftl", "foo.properties\n", "strings\n.xml"]
+
+
+# ------------------------------------------------------ SEQUENCE: names in one process ---
+# Whether a name is supported is known from how the name is BUILT (never from asking the
+# implementation, never from what was called before): the Android parser needs "strings"
+# somewhere in front of a final ".xml", the others are chosen by the final extension.
+SEQ_DIRS = ["", "res/values/", "a/b/", "l10n/de/"]
+SEQ_SUPPORTED = [("strings.xml", "android"), ("strings-foo.xml", "android"), ("mystrings.xml", "android"),
+                 ("strings_v2.xml", "android"), ("foo.po", "po"), ("foo.pot", "po"),
+                 ("x.properties", "properties"), ("x.dtd", "dtd"), ("x.ini", "ini"),
+                 ("x.inc", "inc"), ("x.ftl", "ftl")]
+SEQ_UNSUPPORTED = [("foo.xml", "android"), ("main.xml", "android"), ("AndroidManifest.xml", "android"),
+                   ("string.xml", "android"), ("layout/main.xml", "android"), ("foo.Xml", "android"),
+                   ("foo.pox", "properties"), ("foo.potx", "properties"), ("foo.po.bak", "properties"),
+                   ("foo.PO", "properties"), ("x.propertiesx", "properties"), ("x.dtdx", "dtd"),
+                   ("x.inix", "ini"), ("x.incl", "inc"), ("x.ft", "ftl"), ("x.txt", "properties"),
+                   ("x.unknown", "dtd"), ("noextension", "ini")]
+PO_TEXT = 'msgid "a"\nmsgstr "b"\n'
+
+
+def seq_names(rng, n):
+    """n labelled names (name, format of the content handed over, supported?)"""
+    out = []
+    for _ in range(n):
+        sup = rng.random() < 0.5
+        base, fmt = rng.choice(SEQ_SUPPORTED if sup else SEQ_UNSUPPORTED)
+        out.append((rng.choice(SEQ_DIRS) + base, fmt, sup))
+    return out
+
+
+def seq_sequences(rng, count):
+    """call sequences: every supported/unsupported pair sharing an extension in both orders,
+    then random interleavings"""
+    seqs = []
+    for sb, sf in SEQ_SUPPORTED:
+        for ub, uf in SEQ_UNSUPPORTED:
+            if sb.rsplit(".", 1)[-1].lower()[:2] == ub.rsplit(".", 1)[-1].lower()[:2]:
+                seqs.append([(sb, sf, True), (ub, uf, False)])
+                seqs.append([(ub, uf, False), (sb, sf, True)])
+    for _ in range(count):
+        seqs.append(seq_names(rng, rng.randint(3, 10)))
+    return seqs
+
+
+def run_sequences(chk, model):
+    rng = chk.rng
+    cases, impl, reqs = [], [], []
+    for seq in seq_sequences(rng, chk.n(150, 1500)):
+        history = []
+        for name, fmt, sup in seq:
+            if fmt == "po":
+                case = {"fmt": "po", "items": None, "texts": [PO_TEXT, PO_TEXT]}
+            else:
+                case = gen_case(rng, fmt)
+            res, text = impl_merge(name, case["texts"])
+            chk.count(("seq", tuple(history), name, case["texts"]))
+            desc = {"sequence_before": list(history), "name": name, "fmt": fmt,
+                    "versions": case["texts"]}
+            if not sup and res != [1, 11]:
+                chk.fail("merge-unsupported-not-refused", desc,
+                         {"result": res, "merged": text,
+                          "why": "the name has no parser (known from how the name was built); "
+                                 "merge_channels must raise MergeNotSupportedError whatever was "
+                                 "merged before in this process"})
+            if sup and text is None:
+                chk.fail("merge-supported-refused", desc, {"result": res})
+            if sup and text is not None and case["items"] is not None:
+                oracle_merge(chk, case, text)
+            history.append(name)
+            cases.append(desc)
+            impl.append(res)
+            if fmt == "po":
+                reqs.append((1, s2l(name)))
+                impl[-1] = [0, [PARSER_CODE["po"]]] if sup and text is not None else \
+                    ([0, []] if res == [1, 11] else res)
+            else:
+                reqs.append((0, [s2l(name), model_versions(FNAME[fmt], case["texts"])]))
+    if model:
+        chk.correspond("SEQUENCE", cases, impl, model.call(reqs))
 
 
 def run(chk, runner_ok):
@@ -678,6 +777,8 @@ def run(chk, runner_ok):
     if model:
         chk.correspond("CHANNELS-wild", wcases, wimpl, model.call(wreqs))
         chk.correspond("CHANNELS-small", scases, simpl, model.call(sreqs))
+    # ---- SEQUENCE: supported and unsupported names interleaved in this one process ---
+    run_sequences(chk, model)
     # ---- unsupported names / parser dispatch ------------------------------------
     names = list(UNSUPPORTED) + list(SUPPORTED_ODD) + [FNAME[f] for f in FORMATS]
     alpha = ["strings", ".xml", ".dtd", ".properties", ".ini", ".inc", ".ftl", ".po", "t", "x",
@@ -774,11 +875,17 @@ def replay(chk, path):
                 sub.fail("merge-raises", c, res)
             else:
                 oracle_merge(sub, {"fmt": c["fmt"], "items": c["items"], "texts": c["versions"]}, text)
-        elif "versions" in c:
+        elif "versions" in c and "name" not in c:
             run_witnesses(sub, only=c["versions"])
         elif "name" in c:
-            res, _ = impl_merge(c["name"], ["a = b\n"])
-            if res != [1, 11]:
+            # a name that must be refused, after the recorded calls in this process
+            for nm in c.get("sequence_before", []):
+                impl_merge(nm, c.get("versions", ["a = b\n"]))
+            res, _ = impl_merge(c["name"], c.get("versions", ["a = b\n"]))
+            if f["signature"] == "merge-supported-refused":
+                if res[0] != 0:
+                    sub.fail("merge-supported-refused", c, res)
+            elif res != [1, 11]:
                 sub.fail("merge-unsupported-not-refused", c, res)
         still = sub.failures[before:]
         print("recorded", f["signature"], "->", "still fails: " + still[0]["signature"] if still else "passes now")
